@@ -52,6 +52,24 @@ pub enum Act {
     Arrive(Inject),
     /// the event arrives when the poll loop would otherwise block for ever
     Schedule(Inject),
+    /// `Terminal::run_render` with a scripted handler: step i draws `ch` at (0, col) and
+    /// returns the action
+    RunRender(Vec<RenderStep>),
+}
+
+#[derive(Debug, Clone, Copy, PartialEq, Eq)]
+pub enum RenderAction {
+    Wait,
+    WaitNoFrame,
+    Sleep0,
+    Quit,
+}
+
+#[derive(Debug, Clone, Copy)]
+pub struct RenderStep {
+    pub ch: char,
+    pub col: usize,
+    pub action: RenderAction,
 }
 
 #[derive(Debug, Clone)]
@@ -60,6 +78,8 @@ pub struct Session {
     pub acts: Vec<Act>,
     /// injections the explorer may place at ANY choice point (kind, how many times)
     pub allowed: Vec<(Inject, usize)>,
+    /// default environment: the tty is not writable during the first n `select` calls
+    pub stall_selects: usize,
 }
 
 // ------------------------------------------------------------------ kernel model (Env)
@@ -86,6 +106,7 @@ pub struct Shared {
     da1_scanned: usize,
     pub env_active: bool,
     pub in_release: bool,
+    pub stall_selects: usize,
 }
 
 impl Shared {
@@ -266,8 +287,12 @@ impl Env for Kernel {
                     r.push(*fd);
                 }
             }
+            let stalled = s.stall_selects > 0;
+            if stalled && guard == 1 {
+                s.stall_selects -= 1;
+            }
             for fd in write {
-                if *fd == tty {
+                if *fd == tty && !stalled {
                     w.push(*fd);
                 }
             }
@@ -498,6 +523,9 @@ pub struct Outcome {
     pub acts_done: usize,
     pub epilogue_from: usize,
     pub crashed: bool,
+    /// for run_render sessions: what the last rendered frame drew (row 0)
+    pub render_last: Option<Vec<(usize, char)>>,
+    pub render_result: Option<String>,
 }
 
 fn open_pty() -> Result<(OwnedFd, OwnedFd), String> {
@@ -572,6 +600,7 @@ pub fn execute(session: &Session, upto: usize, choices: Choices, verbose: bool) 
         da1_scanned: 0,
         env_active: false,
         in_release: false,
+        stall_selects: session.stall_selects,
     }));
     unix_verif::install(Box::new(Kernel { sh: sh.clone() }));
     let mut outcome = Outcome {
@@ -590,6 +619,8 @@ pub fn execute(session: &Session, upto: usize, choices: Choices, verbose: bool) 
         acts_done: 0,
         epilogue_from: 0,
         crashed: upto < session.acts.len(),
+        render_last: None,
+        render_result: None,
     };
     sh.borrow_mut().env_active = true;
     let term = SystemTerminal::new_from_fd(slave);
@@ -672,6 +703,41 @@ pub fn execute(session: &Session, upto: usize, choices: Choices, verbose: bool) 
                 sh.borrow_mut().perform(&inj);
             }
             Act::Schedule(inj) => sh.borrow_mut().scheduled.push_back(inj.clone()),
+            Act::RunRender(steps) => {
+                use surf_n_term::{Cell, Face, SurfaceMut, TerminalAction};
+                let mut i = 0usize;
+                let mut last: Option<Vec<(usize, char)>> = None;
+                let shc = sh.clone();
+                let res = term.run_render(|_term, event, mut view| -> Result<TerminalAction<()>, Error> {
+                    let step = steps.get(i).copied().unwrap_or(RenderStep { ch: '!', col: 0, action: RenderAction::Quit });
+                    shc.borrow_mut().logf(|| format!("handler call {i}: event {:?} -> draw {:?}@{} then {:?}", event, step.ch, step.col, step.action));
+                    i += 1;
+                    view.set(Position::new(0, step.col), Cell::new_char(Face::default(), step.ch));
+                    if step.action != RenderAction::WaitNoFrame {
+                        last = Some(vec![(step.col, step.ch)]);
+                    }
+                    Ok(match step.action {
+                        RenderAction::Wait => TerminalAction::Wait,
+                        RenderAction::WaitNoFrame => TerminalAction::WaitNoFrame,
+                        RenderAction::Sleep0 => TerminalAction::Sleep(Duration::from_millis(0)),
+                        RenderAction::Quit => TerminalAction::Quit(()),
+                    })
+                });
+                sh.borrow_mut().logf(|| format!("run_render -> {:?}", res.as_ref().map_err(|e| format!("{e:?}"))));
+                outcome.render_result = Some(match &res {
+                    Ok(()) => "ok".to_string(),
+                    Err(Error::Quit) => {
+                        outcome.quit_seen = true;
+                        "Quit".to_string()
+                    }
+                    Err(e) => format!("{e:?}"),
+                });
+                // the error path renders a cleanup frame: an empty screen
+                outcome.render_last = if res.is_ok() { last } else { Some(vec![]) };
+                if res.is_err() {
+                    stop = true;
+                }
+            }
         }
     }
     let crash = upto < session.acts.len();
@@ -739,6 +805,14 @@ pub fn c16_problems(o: &Outcome) -> Vec<(String, String)> {
     // sequence itself is one more chunk whose exact bytes are not judged here
     let complete = !o.hangup && !o.deadlock && !o.horizon_hit;
     let app = &o.out[..o.app_end()];
+    if let Some(last) = &o.render_last {
+        // run_render session: the chunk list is the renderer's business; judge structure and outcome
+        p.extend(render_stream_problems(app, last, complete && !o.crashed));
+        if o.horizon_hit {
+            p.push(("livelock".into(), "more than the horizon of system calls without finishing (livelock)".into()));
+        }
+        return p;
+    }
     if let Err(what) = parse_stream(app, &o.app_chunks, complete) {
         let kind = if what.contains("torn") {
             "torn-frame"
@@ -928,11 +1002,12 @@ fn inp(s: &[u8]) -> Inject {
 pub fn sessions_c16() -> Vec<Session> {
     use Act::*;
     let mut v = vec![];
-    v.push(Session { name: "write-poll", acts: vec![Write(5), Poll(Some(0))], allowed: vec![] });
+    v.push(Session { name: "write-poll", acts: vec![Write(5), Poll(Some(0))], allowed: vec![], stall_selects: 0 });
     v.push(Session {
         name: "two-frames",
         acts: vec![Write(1), Flush, Write(5), Flush, Poll(Some(0)), Poll(Some(0))],
         allowed: vec![],
+        stall_selects: 0,
     });
     v.push(Session {
         name: "exec-mix",
@@ -943,17 +1018,20 @@ pub fn sessions_c16() -> Vec<Session> {
             Poll(Some(0)),
         ],
         allowed: vec![],
+        stall_selects: 0,
     });
-    v.push(Session { name: "big-write", acts: vec![Write(200 * 1024), Poll(Some(0)), Poll(Some(0))], allowed: vec![] });
+    v.push(Session { name: "big-write", acts: vec![Write(200 * 1024), Poll(Some(0)), Poll(Some(0))], allowed: vec![], stall_selects: 0 });
     v.push(Session {
         name: "drop-after-partial",
         acts: vec![Write(6), Flush, Write(4), Flush, Write(3), Poll(Some(0)), FramesDrop, Write(2), Poll(Some(0))],
         allowed: vec![],
+        stall_selects: 0,
     });
     v.push(Session {
         name: "drop-many",
         acts: vec![Write(2), Flush, Write(2), Flush, Write(2), Flush, Write(2), Flush, FramesDrop, Write(3), Poll(Some(0))],
         allowed: vec![],
+        stall_selects: 0,
     });
     let mut many = vec![];
     for _ in 0..34 {
@@ -962,16 +1040,18 @@ pub fn sessions_c16() -> Vec<Session> {
     }
     many.push(FramesDrop);
     many.push(Poll(Some(0)));
-    v.push(Session { name: "drop-34-frames", acts: many, allowed: vec![] });
+    v.push(Session { name: "drop-34-frames", acts: many, allowed: vec![], stall_selects: 0 });
     v.push(Session {
         name: "poll-finite",
         acts: vec![Write(5), Poll(Some(5)), Write(2), Poll(Some(5))],
         allowed: vec![],
+        stall_selects: 0,
     });
     v.push(Session {
         name: "poll-blocking",
         acts: vec![Write(3), Schedule(inp(b"a")), Poll(None), Write(2), Poll(Some(0))],
         allowed: vec![],
+        stall_selects: 0,
     });
     v.push(Session {
         name: "interleaved",
@@ -986,48 +1066,68 @@ pub fn sessions_c16() -> Vec<Session> {
             Poll(Some(0)),
         ],
         allowed: vec![],
+        stall_selects: 0,
     });
+    {
+        use RenderAction::*;
+        let st = |ch: char, col: usize, action: RenderAction| RenderStep { ch, col, action };
+        v.push(Session {
+            name: "render-basic",
+            acts: vec![
+                Schedule(inp(b"x")),
+                Schedule(inp(b"y")),
+                RunRender(vec![st('a', 0, Wait), st('b', 1, WaitNoFrame), st('c', 2, Sleep0), st('d', 0, Quit)]),
+            ],
+            allowed: vec![],
+            stall_selects: 0,
+        });
+        // the tty does not accept anything while 36 frames are produced: the render loop drops
+        // pending frames (more than 32 pending), then the tty opens up
+        let mut steps: Vec<RenderStep> = (0..36).map(|i| st((b'a' + (i % 26) as u8) as char, i, Sleep0)).collect();
+        steps.push(st('Y', 40, Wait));
+        steps.push(st('Z', 41, Quit));
+        v.push(Session {
+            name: "render-drop-frames",
+            acts: vec![Schedule(inp(b"q")), RunRender(steps)],
+            allowed: vec![],
+            stall_selects: 38,
+        });
+    }
     v.push(Session {
         name: "output-with-input",
         acts: vec![Write(4), Arrive(inp(b"k")), Poll(Some(0)), Write(3), Poll(Some(0))],
-        allowed: vec![(Inject::Wake, 1)],
-    });
+        allowed: vec![(Inject::Wake, 1)], stall_selects: 0 });
     v
 }
 
 pub fn sessions_c17() -> Vec<Session> {
     use Act::*;
     vec![
-        Session { name: "wake-blocking", acts: vec![Schedule(inp(b"a")), Poll(None)], allowed: vec![(Inject::Wake, 2)] },
-        Session { name: "wake-output", acts: vec![Write(5), Poll(Some(0)), Poll(Some(5))], allowed: vec![(Inject::Wake, 2)] },
-        Session { name: "wake-idle", acts: vec![Poll(Some(0)), Poll(Some(0))], allowed: vec![(Inject::Wake, 1)] },
+        Session { name: "wake-blocking", acts: vec![Schedule(inp(b"a")), Poll(None)], allowed: vec![(Inject::Wake, 2)], stall_selects: 0 },
+        Session { name: "wake-output", acts: vec![Write(5), Poll(Some(0)), Poll(Some(5))], allowed: vec![(Inject::Wake, 2)], stall_selects: 0 },
+        Session { name: "wake-idle", acts: vec![Poll(Some(0)), Poll(Some(0))], allowed: vec![(Inject::Wake, 1)], stall_selects: 0 },
         Session {
             name: "winch",
             acts: vec![Write(5), Poll(Some(0)), Poll(Some(5))],
-            allowed: vec![(Inject::Winch, 1), (Inject::Wake, 1)],
-        },
+            allowed: vec![(Inject::Winch, 1), (Inject::Wake, 1)], stall_selects: 0 },
         Session {
             name: "term",
             acts: vec![Write(5), Poll(Some(0)), Poll(Some(5)), Poll(Some(0))],
-            allowed: vec![(Inject::Term, 1)],
-        },
+            allowed: vec![(Inject::Term, 1)], stall_selects: 0 },
         Session {
             name: "input-bytes",
             acts: vec![Write(4), Arrive(inp(b"\xc3")), Poll(Some(0)), Poll(Some(5)), Poll(Some(0))],
-            allowed: vec![(inp(b"\xa9\x1b["), 1), (inp(b"A"), 1)],
-        },
-        Session { name: "hangup", acts: vec![Write(5), Poll(Some(0)), Poll(Some(5))], allowed: vec![(Inject::Hangup, 1)] },
+            allowed: vec![(inp(b"\xa9\x1b["), 1), (inp(b"A"), 1)], stall_selects: 0 },
+        Session { name: "hangup", acts: vec![Write(5), Poll(Some(0)), Poll(Some(5))], allowed: vec![(Inject::Hangup, 1)], stall_selects: 0 },
         Session {
             name: "mixed",
             acts: vec![Write(3), Schedule(inp(b"q")), Poll(None), Poll(Some(0))],
-            allowed: vec![(Inject::Wake, 1), (Inject::Winch, 1), (inp(b"z"), 1)],
-        },
-        Session { name: "big-wake", acts: vec![Write(200 * 1024), Poll(Some(0)), Poll(Some(0))], allowed: vec![(Inject::Wake, 1)] },
+            allowed: vec![(Inject::Wake, 1), (Inject::Winch, 1), (inp(b"z"), 1)], stall_selects: 0 },
+        Session { name: "big-wake", acts: vec![Write(200 * 1024), Poll(Some(0)), Poll(Some(0))], allowed: vec![(Inject::Wake, 1)], stall_selects: 0 },
         Session {
             name: "quit-with-pending-input",
             acts: vec![Arrive(inp(b"ab")), Poll(Some(0)), Poll(Some(0)), Poll(Some(0))],
-            allowed: vec![(Inject::Term, 1)],
-        },
+            allowed: vec![(Inject::Term, 1)], stall_selects: 0 },
     ]
 }
 
@@ -1267,6 +1367,8 @@ pub fn conformance_run(session: &Session, pace_us: u64) -> Result<Outcome, Strin
         acts_done: 0,
         epilogue_from: 0,
         crashed: false,
+        render_last: None,
+        render_result: None,
     };
     let mut term = SystemTerminal::new_from_fd(slave).map_err(|e| format!("{e:?}"))?;
     let mut expected = Expected::default();
@@ -1315,7 +1417,7 @@ pub fn conformance_run(session: &Session, pace_us: u64) -> Result<Outcome, Strin
             Act::Arrive(Inject::Wake) | Act::Schedule(Inject::Wake) => {
                 let _ = term.waker().wake();
             }
-            Act::Arrive(_) | Act::Schedule(_) => {}
+            Act::Arrive(_) | Act::Schedule(_) | Act::RunRender(_) => {}
         }
     }
     for _ in 0..200 {
@@ -1371,4 +1473,106 @@ pub fn conformance_pass() -> Result<(u64, Vec<(String, String)>), String> {
         }
     }
     Ok((runs, problems))
+}
+
+
+// ------------------------------------------------------------------ run_render sessions
+
+/// Interpret the renderer's byte stream (the subset `run_render` emits at Gray depth: CUP, SGR,
+/// ECH, DECSET/DECRST 2026, printable text) and judge it: synchronized-output brackets must be
+/// properly nested and complete (no torn frame), and - when everything was delivered - row 0 of
+/// the screen must show exactly what the last rendered frame drew.
+pub fn render_stream_problems(app: &[u8], last: &[(usize, char)], complete: bool) -> Vec<(String, String)> {
+    let mut p = vec![];
+    let width = 80usize;
+    let mut row0: Vec<char> = vec![' '; width];
+    let mut cur: Option<(usize, usize)> = None;
+    let mut in_frame = false;
+    let mut i = 0;
+    let n = app.len();
+    while i < n {
+        let b = app[i];
+        if b == 0x1b {
+            if i + 1 >= n {
+                if complete {
+                    p.push(("render:truncated".into(), "output ends inside an escape sequence".into()));
+                }
+                break;
+            }
+            if app[i + 1] != b'[' {
+                i += 2;
+                continue;
+            }
+            let mut j = i + 2;
+            while j < n && !(0x40..=0x7e).contains(&app[j]) {
+                j += 1;
+            }
+            if j >= n {
+                if complete {
+                    p.push(("render:truncated".into(), "output ends inside a control sequence".into()));
+                }
+                break;
+            }
+            let params = String::from_utf8_lossy(&app[i + 2..j]).to_string();
+            match app[j] {
+                b'H' => {
+                    let mut it = params.split(';').map(|x| x.parse::<usize>().unwrap_or(1));
+                    let r = it.next().unwrap_or(1).max(1) - 1;
+                    let c = it.next().unwrap_or(1).max(1) - 1;
+                    cur = Some((r, c));
+                }
+                b'X' => {
+                    let k = params.parse::<usize>().unwrap_or(1).max(1);
+                    if let Some((0, c)) = cur {
+                        for x in c..(c + k).min(width) {
+                            row0[x] = ' ';
+                        }
+                    }
+                }
+                b'h' | b'l' if params == "?2026" => {
+                    let begin = app[j] == b'h';
+                    if begin && in_frame {
+                        p.push((
+                            "render:torn-frame".into(),
+                            format!("a frame begins at offset {i} while the previous one was never completed (frame torn or dropped after it had started)"),
+                        ));
+                    }
+                    if !begin && !in_frame {
+                        p.push(("render:torn-frame".into(), format!("end of frame at offset {i} without its beginning")));
+                    }
+                    in_frame = begin;
+                }
+                _ => {}
+            }
+            i = j + 1;
+        } else {
+            if b >= 0x20 {
+                if let Some((r, c)) = cur {
+                    if r == 0 && c < width {
+                        row0[c] = b as char;
+                    }
+                    cur = Some((r, c + 1));
+                }
+            }
+            i += 1;
+        }
+    }
+    if complete {
+        if in_frame {
+            p.push(("render:torn-frame".into(), "the last frame was never completed although the tty kept accepting writes".into()));
+        }
+        let mut want: Vec<char> = vec![' '; width];
+        for (c, ch) in last {
+            want[*c] = *ch;
+        }
+        if row0 != want && p.is_empty() {
+            let got: String = row0.iter().collect::<String>().trim_end().to_string();
+            let exp: String = want.iter().collect::<String>().trim_end().to_string();
+            p.push((
+                "render:final-screen".into(),
+                format!("after everything was delivered row 0 shows {:?}, the last rendered frame drew {:?}", got, exp),
+            ));
+        }
+    }
+    p
 }
